@@ -95,3 +95,72 @@ func VerifC03_SendSynthetic() {
 	vCheckRequestMsg(msg, netFn, byte(cmd.op.Command), byte(cmd.lun), cmd.body)
 	vReached("end")
 }
+
+// C03 (every way of sending on a session): each of the session's convenience methods
+// (Get System GUID, Get Channel Authentication Capabilities, Get Session Info, Get Device ID,
+// chassis status/control, SDR repository info/reservation, sensor reading, privilege level,
+// Close) puts exactly one datagram on the wire, and that datagram is addressed to the BMC's
+// session ID, authenticated, encrypted and carries the method's own command.
+func VerifC03_SessionMethods() {
+	auth, integ := vSuite()
+	vs := vNewSession(auth, integ)
+	s0 := vs.sess.AuthenticatedSequenceNumbers.Inbound
+	vAssume(s0 < 0xffffffff-4)
+	vs.ft.reply = func(attempt int, req []byte) ([]byte, error) { return nil, vErrLost }
+	ctx := context.Background()
+	r0 := vRandCalls()
+	var netFn, cmd byte
+	var err error
+	switch vChoice(13) {
+	case 0:
+		_, err = vs.sess.GetSystemGUID(ctx)
+		netFn, cmd = 0x06, 0x37
+	case 1:
+		_, err = vs.sess.GetChannelAuthenticationCapabilities(ctx, &ipmi.GetChannelAuthenticationCapabilitiesReq{Channel: ipmi.ChannelPresentInterface, MaxPrivilegeLevel: ipmi.PrivilegeLevelUser})
+		netFn, cmd = 0x06, 0x38
+	case 2:
+		_, err = vs.sess.GetSessionInfo(ctx, &ipmi.GetSessionInfoReq{})
+		netFn, cmd = 0x06, 0x3D
+	case 3:
+		_, err = vs.sess.GetDeviceID(ctx)
+		netFn, cmd = 0x06, 0x01
+	case 4:
+		_, err = vs.sess.GetChassisStatus(ctx)
+		netFn, cmd = 0x00, 0x01
+	case 5:
+		err = vs.sess.ChassisControl(ctx, ipmi.ChassisControl(vByte()&0x0f))
+		netFn, cmd = 0x00, 0x02
+	case 6:
+		_, err = vs.sess.GetSDRRepositoryInfo(ctx)
+		netFn, cmd = 0x0A, 0x20
+	case 7:
+		_, err = vs.sess.ReserveSDRRepository(ctx)
+		netFn, cmd = 0x0A, 0x22
+	case 8:
+		_, err = vs.sess.GetSensorReading(ctx, vByte())
+		netFn, cmd = 0x04, 0x2D
+	case 9:
+		_, err = vs.sess.GetSessionPrivilegeLevel(ctx)
+		netFn, cmd = 0x06, 0x3B
+	case 10:
+		level := ipmi.PrivilegeLevel(vByte() & 0x0f)
+		vAssume(level != ipmi.PrivilegeLevelCallback) // reserved for this command: refused before sending
+		_, err = vs.sess.SetSessionPrivilegeLevel(ctx, level)
+		netFn, cmd = 0x06, 0x3B
+	case 11:
+		err = vs.sess.Close(ctx)
+		netFn, cmd = 0x06, 0x3C
+	case 12:
+		_, err = vs.sess.SendCommand(ctx, &ipmi.GetSystemGUIDCmd{})
+		netFn, cmd = 0x06, 0x37
+	}
+	vAssert(err != nil, "c03-lost-reply-is-an-error")
+	vAssert(len(vs.ft.sent) == 1, "c03-one-datagram-per-method-call")
+	if len(vs.ft.sent) == 1 {
+		msg := vCheckSessionDatagram(vs, vs.ft.sent[0], s0+1, vRandBytes(r0+1))
+		m := refParseMsg(msg)
+		vAssert(m.ok, "c03-message-checksums-valid")
+		vAssert(m.netFn == netFn && m.cmd == cmd, "c03-method-sends-its-own-command")
+	}
+	vReached("end")
+}
